@@ -33,12 +33,68 @@ const H: ([u8; 6], [u8; 8], u32) = (*b"OEMIDX", *b"TABLEID0", 0x0102_0304);
 fn bdf() -> Bdf {
     Bdf { seg: 0x1234, bus: 0x56, dev: 0x1f, func: 7 }
 }
+const GASV: GasV = GasV { pci: false, space: 1, width: 0x20, offset: 0x08, access: 3, addr: 0x1122_3344_5566_7788, dev: 0, func: 0, reg: 0 };
 fn gasv() -> GasV {
-    GasV { pci: false, space: 1, width: 0x20, offset: 0x08, access: 3, addr: 0x1122_3344_5566_7788, dev: 0, func: 0, reg: 0 }
+    GASV
+}
+
+/// a FADT builder whose every non-flag field is non-zero
+fn fadt_context() -> fadt::FADTBuilder {
+    let mut b = fadt::FADTBuilder::new(H.0, H.1, H.2);
+    for i in 0..42u8 {
+        if i == 35 {
+            continue; // the flags dword itself
+        }
+        b = apply_fadt(b, &FadtSet::Field(i, 0x1112_1314_1516_1718u64.wrapping_mul(i as u64 + 3) | 0x0101_0101_0101_0101));
+    }
+    for i in 0..11u8 {
+        b = apply_fadt(b, &FadtSet::FieldGas(i, gasv()));
+    }
+    b
 }
 
 pub fn specs() -> Vec<Spec> {
     let mut v: Vec<Spec> = Vec::new();
+    // FADT builder calls next to each other: each may touch only its own fields
+    v.push(Spec {
+        name: "FADT/builders".into(),
+        opts: vec!["acpi_enable", "acpi_disable", "dsdt_32", "dsdt_64", "firmware_ctrl_32", "firmware_ctrl_64", "gpe_info", "preferred_pm_profile", "flag:HwReducedAcpi", "flag:Wbinvd", "flag:ResetRegSup"],
+        build: Box::new(|seq| {
+            let mut b = fadt_context();
+            for o in seq {
+                b = match o {
+                    0 => b.acpi_enable(),
+                    1 => b.acpi_disable(),
+                    2 => b.dsdt_32(0xa1a2_a3a4),
+                    3 => b.dsdt_64(0xb1b2_b3b4_b5b6_b7b8),
+                    4 => b.firmware_ctrl_32(0xc1c2_c3c4),
+                    5 => b.firmware_ctrl_64(0xd1d2_d3d4_d5d6_d7d8),
+                    6 => b.gpe_info(0xe1e2_e3e4, 0xf1f2_f3f4, 0x51, 0x52, 0x53),
+                    7 => b.preferred_pm_profile(fadt::PmProfile::Tablet),
+                    8 => b.flag(fadt::Flags::HwReducedAcpi),
+                    9 => b.flag(fadt::Flags::Wbinvd),
+                    _ => b.flag(fadt::Flags::ResetRegSup),
+                };
+            }
+            ser(&b.finalize())
+        }),
+        bits: vec![vec![], vec![], vec![], vec![], vec![], vec![], vec![], vec![], vec![(112, 4, 1 << 20)], vec![(112, 4, 1)], vec![(112, 4, 1 << 10)]],
+        governs: vec![
+            vec![(52, 2)],
+            vec![(52, 2)],
+            vec![(40, 4), (140, 8)],
+            vec![(40, 4), (140, 8)],
+            vec![(36, 4), (132, 8)],
+            vec![(36, 4), (132, 8)],
+            vec![(80, 8), (92, 3)],
+            vec![(45, 1)],
+            vec![],
+            vec![],
+            vec![],
+        ],
+        fields: vec![(112, 4, 0)],
+        ignore: vec![9],
+    });
     // FADT flags (ACPI 6.5 Table 5.10): bit i for the first 22, then the 2-bit
     // persistent-CPU-caches field at bits 23:22
     v.push(Spec {
@@ -49,7 +105,9 @@ pub fn specs() -> Vec<Spec> {
             "PersistentCpuCachesNotReported", "PersistentCpuCachesNotPersistent", "PersistentCpuCachesArePersistent",
         ],
         build: Box::new(|seq| {
-            let mut b = fadt::FADTBuilder::new(H.0, H.1, H.2);
+            // context: every other field already holds a non-zero value, so that an option
+            // disturbing anything outside its own bit is visible
+            let mut b = fadt_context();
             for o in seq {
                 b = b.flag(FADT_FLAGS[*o]);
             }
@@ -114,19 +172,22 @@ pub fn specs() -> Vec<Spec> {
         fields: vec![(4, 4, 0)],
         ignore: vec![],
     });
-    // PPTT cache type structure (ACPI 6.5 Table 5.140/5.141)
+    // PPTT cache type structure (ACPI 6.5 Table 5.140/5.141); second pass with the value 0
+    // supplied: a 'values supplied' flag follows the call, not the value
+    for zero in [false, true] {
+    let z = move |x: u64| if zero { 0 } else { x };
     v.push(Spec {
-        name: "PPTT/cache".into(),
+        name: if zero { "PPTT/cache/zero-values".into() } else { "PPTT/cache".into() },
         opts: vec![
             "size", "sets", "associativity", "alloc:Read", "alloc:Write", "alloc:Both", "type:Data", "type:Instruction", "type:Unified", "policy:Writeback", "policy:Writethrough", "line_size", "id",
         ],
-        build: Box::new(|seq| {
+        build: Box::new(move |seq| {
             let sets: Vec<CacheSet> = seq
                 .iter()
                 .map(|o| match o {
-                    0 => CacheSet::Size(0x1122_3344),
-                    1 => CacheSet::Sets(0x5566_7788),
-                    2 => CacheSet::Assoc(0x9a),
+                    0 => CacheSet::Size(z(0x1122_3344) as u32),
+                    1 => CacheSet::Sets(z(0x5566_7788) as u32),
+                    2 => CacheSet::Assoc(z(0x9a) as u8),
                     3 => CacheSet::Alloc(0),
                     4 => CacheSet::Alloc(1),
                     5 => CacheSet::Alloc(2),
@@ -135,8 +196,8 @@ pub fn specs() -> Vec<Spec> {
                     8 => CacheSet::Type(2),
                     9 => CacheSet::Policy(0),
                     10 => CacheSet::Policy(1),
-                    11 => CacheSet::Line(0xbcde),
-                    _ => CacheSet::Id(0x0f1e_2d3c),
+                    11 => CacheSet::Line(z(0xbcde) as u16),
+                    _ => CacheSet::Id(z(0x0f1e_2d3c) as u32),
                 })
                 .collect();
             ser(&mk_cache_node(&sets, &[]))
@@ -160,6 +221,7 @@ pub fn specs() -> Vec<Spec> {
         fields: vec![(4, 4, 0), (21, 1, 0)],
         ignore: vec![],
     });
+    }
     v.push(Spec {
         name: "CEDT/CFMWS-restrictions".into(),
         opts: vec!["cxl_type_2_memory", "cxl_type_3_memory", "volatile", "persistent", "fixed_configuration"],
@@ -174,20 +236,28 @@ pub fn specs() -> Vec<Spec> {
     });
     // TCPA server (TCG ACPI spec): device flags @58 (bit0 PCI, bit1 PnP, bit2 config address
     // valid), interrupt flags @59 (bit0 edge, bit1 active low, bit2 SCI via GPE, bit3 GSI valid)
+    for zero in [false, true] {
     v.push(Spec {
-        name: "TCPA-server".into(),
+        name: if zero { "TCPA-server/zero-values".into() } else { "TCPA-server".into() },
         opts: vec!["active_low", "edge_triggered", "sci_gpe", "gsi", "bus_is_pnp", "pci_sbdf", "config_addr", "log_area", "base_addr"],
-        build: Box::new(|seq| {
+        build: Box::new(move |seq| {
             let mut t = tpm2::TpmServer1_2::new(H.0, H.1, H.2);
+            let zg = GasV { pci: false, space: 0, width: 0, offset: 0, access: 0, addr: 0, dev: 0, func: 0, reg: 0 };
             for o in seq {
                 t = match o {
                     0 => t.active_low(),
                     1 => t.edge_triggered(),
-                    2 => t.sci_gpe(0x5a),
-                    3 => t.gsi(0x1122_3344),
+                    2 => t.sci_gpe(if zero { 0 } else { 0x5a }),
+                    3 => t.gsi(if zero { 0 } else { 0x1122_3344 }),
                     4 => t.bus_is_pnp(),
-                    5 => t.pci_sbdf(0x12, 0x34, 0x1f, 7),
-                    6 => t.config_addr(mk_gas(&gasv())),
+                    5 => {
+                        if zero {
+                            t.pci_sbdf(0, 0, 0, 0)
+                        } else {
+                            t.pci_sbdf(0x12, 0x34, 0x1f, 7)
+                        }
+                    }
+                    6 => t.config_addr(mk_gas(if zero { &zg } else { &GASV })),
                     7 => t.log_area(0x0102_0304_0506_0708, 0x1112_1314_1516_1718),
                     _ => t.base_addr(mk_gas(&gasv())),
                 };
@@ -199,6 +269,7 @@ pub fn specs() -> Vec<Spec> {
         fields: vec![(58, 1, 0), (59, 1, 0)],
         ignore: vec![9],
     });
+    }
     // GICC flags (ACPI 6.5 Table 5.37): bit0 enabled, bit1 performance interrupt edge,
     // bit2 VGIC maintenance interrupt edge, bit3 online capable
     for (status, base) in [(0u8, 0u64), (1, 1), (2, 8)] {
@@ -224,14 +295,21 @@ pub fn specs() -> Vec<Spec> {
         });
     }
     // GIC MSI frame flags: bit0 SPI Count/Base Select (1 = the table values override)
+    for zero in [false, true] {
     v.push(Spec {
-        name: "MADT/GIC-MSI".into(),
+        name: if zero { "MADT/GIC-MSI/zero-values".into() } else { "MADT/GIC-MSI".into() },
         opts: vec!["spi_count_and_base", "gic_msi_frame_id", "base_addr"],
-        build: Box::new(|seq| {
+        build: Box::new(move |seq| {
             let mut m = madt::GicMsi::new();
             for o in seq {
                 m = match o {
-                    0 => m.spi_count_and_base(0x1122, 0x3344),
+                    0 => {
+                        if zero {
+                            m.spi_count_and_base(0, 0)
+                        } else {
+                            m.spi_count_and_base(0x1122, 0x3344)
+                        }
+                    }
                     1 => m.gic_msi_frame_id(0x5566_7788),
                     _ => m.base_addr(0x0102_0304_0506_0708),
                 };
@@ -243,6 +321,7 @@ pub fn specs() -> Vec<Spec> {
         fields: vec![(16, 4, 0)],
         ignore: vec![],
     });
+    }
     // HMAT SLLBI flags: bits 3:0 memory hierarchy, bit4 minimum transfer size, bit5 non-sequential
     for loc in 0..4u8 {
         v.push(Spec {
@@ -268,15 +347,16 @@ pub fn specs() -> Vec<Spec> {
         fields: vec![(36, 2, 0), (16, 4, 0)],
         ignore: vec![],
     });
+    for zero in [false, true] {
     v.push(Spec {
-        name: "RIMT/iommu".into(),
+        name: if zero { "RIMT/iommu/zero-values".into() } else { "RIMT/iommu".into() },
         opts: vec!["pci_device", "proximity_domain"],
-        build: Box::new(|seq| {
+        build: Box::new(move |seq| {
             ser(&rimt::Iommu::new(
                 1,
                 Some(0x1000),
-                if seq.contains(&0) { Some(rimt::PciDevice::new(0x1234, 0x56, 0x1f, 7)) } else { None },
-                if seq.contains(&1) { Some(0x0a0b_0c0d) } else { None },
+                if seq.contains(&0) { Some(if zero { rimt::PciDevice::new(0, 0, 0, 0) } else { rimt::PciDevice::new(0x1234, 0x56, 0x1f, 7) }) } else { None },
+                if seq.contains(&1) { Some(if zero { 0 } else { 0x0a0b_0c0d }) } else { None },
                 None,
             ))
         }),
@@ -285,6 +365,7 @@ pub fn specs() -> Vec<Spec> {
         fields: vec![(16, 4, 0)],
         ignore: vec![],
     });
+    }
     v.push(Spec {
         name: "RIMT/id-mapping".into(),
         opts: vec!["ats", "pri", "rciep"],
@@ -524,7 +605,7 @@ pub fn run(ctx: &Ctx) {
         }
     }
     // FADT: random subsets (quick) / all 2^25 (thorough), check (1) only
-    let fadt_spec = &specs[0];
+    let fadt_spec = specs.iter().find(|s| s.name == "FADT/flags").unwrap();
     if ctx.quick() {
         let n = ctx.scale(65_536, 0);
         let seed = ctx.seed;
@@ -584,7 +665,7 @@ pub fn run(ctx: &Ctx) {
     ctx.add_evals(total);
     ctx.add_nontrivial_counted(nontriv);
     ctx.add_engine("enumeration:c11", total);
-    ctx.add_subdomain("all option subsets (n<=13) x orders (<=4 options) x one repetition, for 23 structures; assigned codes", total, true);
+    ctx.add_subdomain("all option subsets (n<=13) x orders (<=4 options) x one repetition, for every structure (see classes); assigned codes", total, true);
     for s in &specs {
         ctx.add_class(&format!("structure:{}", s.name), 1);
     }
